@@ -423,6 +423,8 @@ def run(tier, seed, replay=None):
         ]
         if unreproduced:
             log("unreproduced rejections (ignored): %s" % json.dumps(unreproduced)[:600])
+        import keystore
+        keystore.run_into(verdict, work, binary, tier, seed)
         return verdict.finish()
     finally:
         work.close()
